@@ -145,6 +145,8 @@ def map_case(seed, threads=None, thick=False, force=None):
     res = f.get("res", int(rng.choice([1, 2, 3, 7, 16, 24])))
     resolution = res if rng.random() < 0.6 else {"x": res, "y": int(rng.choice([1, 4, 9]))}
     op = None
+    if not thick and rng.random() < 0.2:
+        kw["operation"] = str(rng.choice(["nansum", "mean", "nanmax", "min"]))  # no depth: must not matter
     if thick:
         dzf = f.get("dzfrac", float(rng.choice([0.02, 0.1, 0.3, 1.0])))
         op = f.get("op", str(rng.choice(["sum", "mean", "min", "max", "nansum", "nanmean", "nanmin", "nanmax"])))
